@@ -97,33 +97,42 @@ computed by `DecFloat.parseF64N` and formalised as the grammar `Spec/FloatGramma
 /-- **real_literal_exact (REAL column text → value).** With the computed `f64::from_str` (`Oracles.computed`, what the
 driver uses whenever a case ships no fact), the text `cs` of a group — handed over as its UTF-8 bytes — is a REAL literal
 with the value `b` exactly when `cs` is a `Float` of the grammar of Rust's `f64::from_str`
-(`FloatGrammar.FloatD`: optional sign; digits with an optional point, at least one digit; optional exponent; or `inf` /
+(optional sign; digits with an optional point, at least one digit; optional exponent; or `inf` /
 `infinity` / `nan` in any letter case; nothing around it) and `b` is the REAL of its denotation — the decimal rounded to
 the nearest REAL, ties to even, `inf` on overflow (`DecFloat.bitsOf`, `DecFloat.decToF64_nearest`); every other text is
 "not a literal of that type" (NULL). Never a truncated or re-typed value: `1e400` is `inf`, `1e-400` is `0`,
-`0.1` is the REAL nearest to one tenth. -/
+`0.1` is the REAL nearest to one tenth.
+
+The denotation is the documented one (`FloatGrammar.FloatD`: every digit string by its mathematical value) for every text
+whose exponent digits' value is below 65 536 (`FloatGrammar.ExpSmall`, decidable on the text) — third conjunct. For ANY
+text it is Rust's (`FloatGrammar.FloatR`, first conjunct): std stops accumulating exponent digits at `0x10000`
+(observation N3 of DESIGN.md), so a REAL column fed `0.` + 65 299 zeros + `1e655360` holds 1e236, Rust's value, although
+the text denotes 1e590060 — "never silently altered" is strained by std there, not by sqlgrep; texts shorter than
+≈ 65 000 characters are unaffected (capped and exact exponent both give `±0` / `±inf`). Which texts are literals never
+depends on the reading (second conjunct). -/
 theorem real_literal_exact (cs : List Char) :
     (∀ b, parseValue Oracles.computed .real (Utf8.encode cs) = some (.real b) ↔
-      ∃ v, FloatGrammar.FloatD cs v ∧ DecFloat.bitsOf v = b) ∧
-    (parseValue Oracles.computed .real (Utf8.encode cs) = none ↔ ¬ ∃ v, FloatGrammar.FloatD cs v) := by
-  have key : ∀ b, DecFloat.parseF64N (Utf8.encode cs) = some b ↔ ∃ v, FloatGrammar.FloatD cs v ∧ DecFloat.bitsOf v = b :=
-    DecFloat.parseF64N_utf8_iff cs
-  constructor
-  · intro b
+      ∃ v, FloatGrammar.FloatR cs v ∧ DecFloat.bitsOf v = b) ∧
+    (parseValue Oracles.computed .real (Utf8.encode cs) = none ↔ ¬ ∃ v, FloatGrammar.FloatD cs v) ∧
+    (FloatGrammar.ExpSmall cs →
+      ∀ b, parseValue Oracles.computed .real (Utf8.encode cs) = some (.real b) ↔
+        ∃ v, FloatGrammar.FloatD cs v ∧ DecFloat.bitsOf v = b) := by
+  have key : ∀ b, DecFloat.parseF64N (Utf8.encode cs) = some b ↔ ∃ v, FloatGrammar.FloatR cs v ∧ DecFloat.bitsOf v = b :=
+    DecFloat.parseF64N_utf8_iff_rust cs
+  have first : ∀ b, parseValue Oracles.computed .real (Utf8.encode cs) = some (.real b) ↔
+      ∃ v, FloatGrammar.FloatR cs v ∧ DecFloat.bitsOf v = b := by
+    intro b
     rw [← key b]
     simp only [parseValue, Oracles.computed]
     cases DecFloat.parseF64N (Utf8.encode cs) <;> simp
-  · simp only [parseValue, Oracles.computed]
-    cases hp : DecFloat.parseF64N (Utf8.encode cs) with
-    | none =>
-      simp only [Option.map_none, true_iff]
-      rintro ⟨v, hv⟩
-      have := (key _).2 ⟨v, hv, rfl⟩
-      rw [hp] at this; cases this
-    | some b =>
-      simp only [Option.map_some, reduceCtorEq, false_iff]
-      obtain ⟨v, hv, _⟩ := (key b).1 hp
-      exact fun hn => hn ⟨v, hv⟩
+  refine ⟨first, ?_, ?_⟩
+  · rw [← DecFloat.parseF64N_utf8_none_iff]
+    simp only [parseValue, Oracles.computed]
+    cases hp : DecFloat.parseF64N (Utf8.encode cs) <;> simp
+  · intro hs b
+    rw [first b]
+    exact ⟨fun ⟨v, hv, hb⟩ => ⟨v, (DecFloat.floatR_iff_floatD hs v).1 hv, hb⟩,
+      fun ⟨v, hv, hb⟩ => ⟨v, (DecFloat.floatR_iff_floatD hs v).2 hv, hb⟩⟩
 
 /-- a BOOLEAN literal is exactly `true` or `false` (lower case, nothing around it) -/
 theorem parseBool_exact (s : Text) (b : Bool) :
@@ -329,13 +338,16 @@ example : trim [32, 0xC2, 0xA0, 97, 32, 98, 0xE3, 0x80, 0x80, 9] = [97, 32, 98] 
 -- REAL texts (`real_literal_exact`): `-1.5e3` is a `Float` denoting `-15 · 10^2`; `1,5` and `٣` (a non-ASCII digit) are not literals
 example : FloatGrammar.FloatD "-1.5e3".toList (.dec true 15 2) :=
   .number (sg := ['-']) (body := "1.5e3".toList) .minus
-    (FloatGrammar.NumberD.point (ip := ['1']) (fp := ['5']) (e := ['e', '3']) (ev := 3) (by decide) (by decide)
-      (Or.inl (by decide)) (FloatGrammar.ExpD.some (sg := []) (ds := ['3']) (neg := false) (Or.inl rfl) .none (by decide)))
+    (FloatGrammar.NumberDV.point (ip := ['1']) (fp := ['5']) (e := ['e', '3']) (ev := 3) (by decide) (by decide)
+      (Or.inl (by decide)) (FloatGrammar.ExpDV.some (sg := []) (ds := ['3']) (neg := false) (Or.inl rfl) .none (by decide)))
 example : DecFloat.parseF64N (Utf8.encode "-1.5e3".toList) = some 0xc097700000000000
     ∧ DecFloat.bitsOf (.dec true 15 2) = 0xc097700000000000 := by decide +kernel
 example : parseValue Oracles.computed .real (Utf8.encode "-1.5e3".toList) = some (.real 0xc097700000000000) := by
   have : DecFloat.parseF64N (Utf8.encode "-1.5e3".toList) = some 0xc097700000000000 := by decide +kernel
   simp only [parseValue, Oracles.computed, this, Option.map_some]
+-- the hypothesis `ExpSmall` of the third conjunct of `real_literal_exact` (exponent digits' value below 65 536)
+example : FloatGrammar.ExpSmall "-1.5e3".toList ∧ FloatGrammar.ExpSmall "1e-400".toList ∧ ¬ FloatGrammar.ExpSmall "1e655360".toList := by
+  decide
 example : DecFloat.parseF64N (Utf8.encode "1,5".toList) = none ∧ DecFloat.parseF64N (Utf8.encode "٣".toList) = none
     ∧ DecFloat.parseF64N (Utf8.encode " 1".toList) = none := by decide +kernel
 
